@@ -177,6 +177,9 @@ func runC18(o Opts) error {
 		cut := 1 + r.Intn(len(fs))
 		inner := append([]LField{}, fs[:cut]...)
 		outer := append([]LField{}, fs[cut:]...)
+		if len(outer) > 0 && i%3 == 0 { // a field of the embedded struct shadowed by a field of the same name outside it
+			inner[len(inner)-1].Name = outer[0].Name
+		}
 		var L []LField
 		switch r.Intn(3) {
 		case 0: // header outside, data inside
